@@ -39,6 +39,17 @@ func (ex *Exec) load(st *State, p Val, t types.Type) (Val, string) {
 		return nv, ""
 	}
 	// materialise unknown bools so that later refinement is shared: keep as is (BoolV unknown has no identity)
+	if uv, ok := v.(*PtrV); ok && uv.Unk && ex.LazyPtr {
+		// lazy materialisation: an unknown pointer field becomes a pointer to a fresh unknown object
+		if pt, ok := t.Underlying().(*types.Pointer); ok {
+			switch pt.Elem().Underlying().(type) {
+			case *types.Struct, *types.Array:
+				np := ex.newTopObject(st, pt.Elem(), "lazy")
+				ex.storePath(st, pv.Obj, pv.Path, np)
+				return np, ""
+			}
+		}
+	}
 	if sv, ok := v.(*StructV); ok {
 		return cloneVal(sv), "" // struct values are copied on load
 	}
@@ -517,7 +528,7 @@ func (ex *Exec) callFn(fr *Frame, st *State, fn *ssa.Function, args []Val, x ssa
 			ex.unsupported("recursion-or-depth:" + fn.String())
 		}
 		if hasPointerArg(args) && !pureStd(fn) {
-			ex.havocAll(st, "opaque call "+fn.String())
+			ex.havocReachable(st, "opaque call "+fn.String(), append(append([]Val{}, args...), bindings...))
 		}
 		r := ex.retTop(st, resT, "ret:"+fn.Name())
 		if nonNilCtors[qualOfFn(fn)] {
